@@ -973,6 +973,17 @@ fn c04_limits(input: &Input, obs: &mut Obs) -> Result<(), Fail> {
     } else {
         &[]
     };
+    // now and then the limit is configured only while the request that is about to be rejected is
+    // in flight (some of its bytes read): the requests behind the rejected one are judged by L
+    if prelude.len() > 2 && limit.is_some() && s.chance(90) {
+        let k = 1 + s.below(prelude.len() - 1);
+        // (no line of the prelude may be complete at the split when its fault is in that line)
+        let first_line_end = prelude.windows(2).position(|w| w == b"\r\n").map(|i| i + 2).unwrap_or(prelude.len());
+        let k = if first_line_end == prelude.len() { k.min(prelude.len() - 2) } else { k };
+        if k > 0 {
+            crate::connrun::LATE_LIMIT_AT.with(|c| c.set(Some(k)));
+        }
+    }
     let r = {
         let mut sch = sched_from_src(&mut s, &stream, &bounds, 20);
         // a declaration beyond 32 bits exceeds every limit: that it is rejected (as an invalid
@@ -989,6 +1000,9 @@ fn c04_limits(input: &Input, obs: &mut Obs) -> Result<(), Fail> {
     }
     if !prelude.is_empty() {
         obs.label("limit_checked_after_a_parse_error");
+    }
+    if r.info.labels.contains(&"limit_configured_while_a_request_is_in_flight") {
+        obs.label("limit_configured_while_a_request_is_in_flight");
     }
     // a delivered body never exceeds the limit or its declared length
     for (rs, _) in &r.info.transcript {
@@ -1089,6 +1103,24 @@ fn c04_lines(input: &Input, obs: &mut Obs) -> Result<(), Fail> {
         stream.extend_from_slice(b"\r\n\r\n");
     }
     stream.extend_from_slice(b"GET /after HTTP/1.1\r\n\r\n");
+    // filler variant: a lone LF / lone CR / NUL inside the long line (in the middle or near its
+    // end) is an ordinary byte of that line, which is as long as before
+    let variant = p.get(4).copied().unwrap_or(0);
+    if variant > 0 && len >= 40 {
+        let fill_at = match kind {
+            0 => line_start + 5,
+            2 => line_start + 25 + 7,
+            _ => line_start + 16 + 7,
+        };
+        let fill_len = len - if kind == 0 { 16 } else { 9 };
+        let at = fill_at + if variant >= 4 { fill_len - 3 } else { fill_len / 2 };
+        stream[at] = match variant {
+            1 | 4 => b'\n',
+            2 | 5 => b'\r',
+            _ => 0,
+        };
+        obs.label("long_line_with_lone_LF_CR_NUL");
+    }
     let b = buf_size();
     let (reqs, end) = ref_parse(&stream, b, DEFAULT_LIMIT);
     let mut sch = sweep_mode_sched(mode);
@@ -1132,6 +1164,15 @@ fn c04_lines_enum(tier: Tier, shard: u64, nshards: u64, f: &mut dyn FnMut(&[u64]
                     }
                     if !f(&[kind, len, *off, *m]) {
                         return;
+                    }
+                    // the same line with a lone LF, CR or NUL inside: around the limit for every
+                    // offset, elsewhere for a sample
+                    if (len + 3 >= b && len <= b + 3) || (len + *off) % 7 == 0 {
+                        for v in 1..=5u64 {
+                            if !f(&[kind, len, *off, *m, v]) {
+                                return;
+                            }
+                        }
                     }
                 }
             }
